@@ -158,12 +158,23 @@ def build_harness(features=None, target_suffix=""):
     return rc == 0, out, os.path.join(tdir, "debug", "hclv")
 
 
-def run_stream(binary, stream, seed, count, extra=(), tag=None):
-    """run the harness generator and the lean driver; returns list of (request, impl, answer)"""
+def build_binary():
+    """the hclrs binary itself, built from /repo's working tree into /verif/build (never into /repo/target)"""
+    tdir = os.path.join(BUILD, "repo-target")
+    rc, out = run(["cargo", "build", "--offline"], cwd=REPO, env={"CARGO_TARGET_DIR": tdir}, timeout=3600)
+    return rc == 0, out, os.path.join(tdir, "debug", "hclrs")
+
+
+def run_stream(binary, stream, seed, count, extra=(), tag=None, pygen=None):
+    """run the harness generator (or a Python generator) and the lean driver; returns list of (request, impl, answer)"""
     os.makedirs(BUILD, exist_ok=True)
     tag = tag or stream
     gen = os.path.join(BUILD, "stream-%s-%d.txt" % (tag, os.getpid()))
-    rc, out = run([binary, "gen", stream, str(seed), str(count), gen] + [str(x) for x in extra], timeout=7200)
+    if pygen is not None:
+        pygen(seed, count, gen)
+        rc, out = 0, ""
+    else:
+        rc, out = run([binary, "gen", stream, str(seed), str(count), gen] + [str(x) for x in extra], timeout=7200)
     if rc != 0:
         raise RuntimeError("harness failed on stream %s: %s" % (stream, out[-2000:]))
     reqs, impls = [], []
